@@ -91,3 +91,5 @@
         }
         std::mem::forget(reader);
     }
+
+    pub(crate) fn inner_mut(r: &mut TransportReader) -> &mut InnerReaderType { &mut r.inner }
